@@ -63,9 +63,46 @@ func checkGo(w *World, r *Report, parent *ssa.Function, g *ssa.Go) {
 			badA = fmt.Sprintf("capture #%d is not a variable cell", bi)
 			continue
 		}
+		// a cell created in the same iteration as the go statement (`i := i` inside the loop: a new
+		// cell per iteration) belongs to that iteration's goroutine alone: its stores only have to
+		// come before the go statement
+		perIter := al.Heap && al.Block() != parent.Blocks[0] && instrDominates(al, g) && func() bool {
+			// no path from the go statement back to itself that avoids the allocation
+			if al.Block() == g.Block() {
+				return true
+			}
+			seen := map[*ssa.BasicBlock]bool{}
+			work := []*ssa.BasicBlock{}
+			for _, s := range g.Block().Succs {
+				if s != al.Block() && !seen[s] {
+					seen[s] = true
+					work = append(work, s)
+				}
+			}
+			for len(work) > 0 {
+				b := work[len(work)-1]
+				work = work[:len(work)-1]
+				if b == g.Block() {
+					return false
+				}
+				for _, s := range b.Succs {
+					if s != al.Block() && !seen[s] {
+						seen[s] = true
+						work = append(work, s)
+					}
+				}
+			}
+			return true
+		}()
 		for _, ref := range referrersOf(al) {
 			st, isSt := ref.(*ssa.Store)
 			if !isSt || st.Addr != ssa.Value(al) {
+				continue
+			}
+			if perIter {
+				if !instrDominates(st, g) {
+					badA = "captured variable " + al.Comment + " is stored after the go statement at " + w.ipos(st)
+				}
 				continue
 			}
 			if st.Block() == g.Block() {
@@ -716,8 +753,18 @@ func checkApplySlice(w *World, r *Report) {
 				}
 			}
 			if sl, ok := w.up(a[1]).(*ssa.Slice); ok && sl.Low != nil && sl.High != nil && w.up(sl.Low) == dataStart && w.up(sl.High) == dataEnd {
-				if base, _, ok := rowOf(sl.X); ok && base == in {
-					okIn = true
+				if base, _, ok := rowOf(sl.X); ok {
+					// any row of in, also of a reslice of it (in[1:]): rows are only read
+					for k := 0; k < 3; k++ {
+						rs, isSl := base.(*ssa.Slice)
+						if !isSl {
+							break
+						}
+						base = w.up(rs.X)
+					}
+					if base == in {
+						okIn = true
+					}
 				}
 			}
 			switch {
